@@ -269,6 +269,21 @@ def check(A):
                 detail=v.describe(50),
                 behaviour="/static/css/../../secret is served from outside the mapped directory")
     A.floor('C20', 'static directory-mapping paths', n_dir, 2)
+    # the remainder is *appended* to the mapped root: a path-joining API drops everything
+    # before an absolute component (os.path.join('/root', '/etc/passwd') == '/etc/passwd'),
+    # and an empty segment in the request (//) makes the remainder absolute
+    for node in ast.walk(gs.node):
+        if isinstance(node, ast.Call) and txt(node.func) in ('os.path.join', 'posixpath.join',
+                                                             'ntpath.join', 'Path', 'PurePath',
+                                                             'pathlib.Path') and \
+                any('extra_path' in ast.unparse(a_) or 'last' in ast.unparse(a_) or
+                    "rsplit('/'" in ast.unparse(a_) for a_ in node.args[1:] or node.args):
+            A.violated('C20.containment', 'static files: the request-derived remainder is '
+                       'appended to the mapped root, never handed to a path-joining API that '
+                       'lets an absolute remainder replace the root', A.site(gs, node),
+                       key='static-join-api', detail=ast.unparse(node),
+                       behaviour='/static//etc/passwd is served: the doubled slash makes the '
+                                 'remainder absolute and the mapped directory is discarded')
     # content type
     cts = A.model.const_value(A.model.module('static_files'), 'content_types')
     A.check(isinstance(cts, dict) and cts.get('html') == 'text/html' and
